@@ -321,9 +321,7 @@ func treeLabels(sc *Scenario, r *treeRunOut) (labels []string, nodes, failed, ma
 func checkC07(sc *Scenario, st *Stats) *Violation {
 	r := runTree(sc, false)
 	if r.panicMsg != "" {
-		// crashes are C03's subject; here they only prevent the check
-		st.Exclude("panic(C03)")
-		return nil
+		return violf("panic", "the VM panicked: %.1500s", r.panicMsg)
 	}
 	if r.shapeErr != "" {
 		return violf("shape", "%s", r.shapeErr)
@@ -372,8 +370,7 @@ func errTextOf(err error) string {
 func checkC08(sc *Scenario, st *Stats) *Violation {
 	r := runTree(sc, true)
 	if r.panicMsg != "" {
-		st.Exclude("panic(C03)")
-		return nil
+		return violf("panic", "the VM panicked: %.1500s", r.panicMsg)
 	}
 	if r.shapeErr != "" {
 		// the links are C07's business; the recorded fields are compared node by node
